@@ -926,12 +926,34 @@ func (tx *Transaction) ProcessRequestHeaders() *types.Interruption {
 }
 
 func setAndReturnBodyLimitInterruption(tx *Transaction, status int) (*types.Interruption, int, error) {
+	if tx.interruption != nil {
+		// The first interruption is final: a body limit reached afterwards does not replace it.
+		return tx.interruption, 0, nil
+	}
 	tx.debugLogger.Warn().Msg("Disrupting transaction with body size above the configured limit (Action Reject)")
 	tx.interruption = &types.Interruption{
 		Status: status,
 		Action: "deny",
 	}
 	return tx.interruption, 0, nil
+}
+
+// requestBodyLimitAction returns the request body limit action in force for this transaction.
+// As documented for SecRequestBodyLimitAction, DetectionOnly never rejects (ProcessPartial is
+// used instead); this also holds when the mode was set by ctl:ruleEngine.
+func (tx *Transaction) requestBodyLimitAction() types.BodyLimitAction {
+	if tx.RuleEngine == types.RuleEngineDetectionOnly {
+		return types.BodyLimitActionProcessPartial
+	}
+	return tx.WAF.RequestBodyLimitAction
+}
+
+// responseBodyLimitAction is requestBodyLimitAction for the response body.
+func (tx *Transaction) responseBodyLimitAction() types.BodyLimitAction {
+	if tx.RuleEngine == types.RuleEngineDetectionOnly {
+		return types.BodyLimitActionProcessPartial
+	}
+	return tx.WAF.ResponseBodyLimitAction
 }
 
 // WriteRequestBody writes bytes from a slice of bytes into the request body,
@@ -949,11 +971,11 @@ func (tx *Transaction) WriteRequestBody(b []byte) (*types.Interruption, int, err
 	if tx.RequestBodyLimit == tx.requestBodyBuffer.length {
 		// tx.RequestBodyLimit will never be zero so if this happened, we have an
 		// interruption (that has been previously raised, but ignored by the connector) for sure.
-		if tx.WAF.RequestBodyLimitAction == types.BodyLimitActionReject {
+		if tx.requestBodyLimitAction() == types.BodyLimitActionReject {
 			return tx.interruption, 0, nil
 		}
 
-		if tx.WAF.RequestBodyLimitAction == types.BodyLimitActionProcessPartial {
+		if tx.requestBodyLimitAction() == types.BodyLimitActionProcessPartial {
 			return nil, 0, nil
 		}
 	}
@@ -971,12 +993,12 @@ func (tx *Transaction) WriteRequestBody(b []byte) (*types.Interruption, int, err
 
 	if tx.requestBodyBuffer.length+writingBytes >= tx.RequestBodyLimit {
 		tx.variables.inboundDataError.Set("1")
-		if tx.WAF.RequestBodyLimitAction == types.BodyLimitActionReject {
+		if tx.requestBodyLimitAction() == types.BodyLimitActionReject {
 			// We interrupt this transaction in case RequestBodyLimitAction is Reject
 			return setAndReturnBodyLimitInterruption(tx, 413)
 		}
 
-		if tx.WAF.RequestBodyLimitAction == types.BodyLimitActionProcessPartial {
+		if tx.requestBodyLimitAction() == types.BodyLimitActionProcessPartial {
 			writingBytes = tx.RequestBodyLimit - tx.requestBodyBuffer.length
 			if writingBytes < 0 {
 				// the limit was lowered (ctl:requestBodyLimit) below what is already buffered
@@ -1018,11 +1040,11 @@ func (tx *Transaction) ReadRequestBodyFrom(r io.Reader) (*types.Interruption, in
 	if tx.RequestBodyLimit == tx.requestBodyBuffer.length {
 		// tx.RequestBodyLimit will never be zero so if this happened, we have an
 		// interruption (that has been previously raised, but ignored by the connector) for sure.
-		if tx.WAF.RequestBodyLimitAction == types.BodyLimitActionReject {
+		if tx.requestBodyLimitAction() == types.BodyLimitActionReject {
 			return tx.interruption, 0, nil
 		}
 
-		if tx.WAF.RequestBodyLimitAction == types.BodyLimitActionProcessPartial {
+		if tx.requestBodyLimitAction() == types.BodyLimitActionProcessPartial {
 			return nil, 0, nil
 		}
 	}
@@ -1041,11 +1063,11 @@ func (tx *Transaction) ReadRequestBodyFrom(r io.Reader) (*types.Interruption, in
 		}
 		if tx.requestBodyBuffer.length+writingBytes >= tx.RequestBodyLimit {
 			tx.variables.inboundDataError.Set("1")
-			if tx.WAF.RequestBodyLimitAction == types.BodyLimitActionReject {
+			if tx.requestBodyLimitAction() == types.BodyLimitActionReject {
 				return setAndReturnBodyLimitInterruption(tx, 413)
 			}
 
-			if tx.WAF.RequestBodyLimitAction == types.BodyLimitActionProcessPartial {
+			if tx.requestBodyLimitAction() == types.BodyLimitActionProcessPartial {
 				writingBytes = tx.RequestBodyLimit - tx.requestBodyBuffer.length
 				runProcessRequestBody = true
 			}
@@ -1061,11 +1083,11 @@ func (tx *Transaction) ReadRequestBodyFrom(r io.Reader) (*types.Interruption, in
 
 	if tx.requestBodyBuffer.length == tx.RequestBodyLimit {
 		tx.variables.inboundDataError.Set("1")
-		if tx.WAF.RequestBodyLimitAction == types.BodyLimitActionReject {
+		if tx.requestBodyLimitAction() == types.BodyLimitActionReject {
 			return setAndReturnBodyLimitInterruption(tx, 413)
 		}
 
-		if tx.WAF.RequestBodyLimitAction == types.BodyLimitActionProcessPartial {
+		if tx.requestBodyLimitAction() == types.BodyLimitActionProcessPartial {
 			runProcessRequestBody = true
 		}
 	}
@@ -1230,11 +1252,11 @@ func (tx *Transaction) WriteResponseBody(b []byte) (*types.Interruption, int, er
 	if tx.ResponseBodyLimit == tx.responseBodyBuffer.length {
 		// tx.ResponseBodyLimit will never be zero so if this happened, we have an
 		// interruption for sure.
-		if tx.WAF.ResponseBodyLimitAction == types.BodyLimitActionReject {
+		if tx.responseBodyLimitAction() == types.BodyLimitActionReject {
 			return tx.interruption, 0, nil
 		}
 
-		if tx.WAF.ResponseBodyLimitAction == types.BodyLimitActionProcessPartial {
+		if tx.responseBodyLimitAction() == types.BodyLimitActionProcessPartial {
 			return nil, 0, nil
 		}
 	}
@@ -1245,12 +1267,12 @@ func (tx *Transaction) WriteResponseBody(b []byte) (*types.Interruption, int, er
 	)
 	if tx.responseBodyBuffer.length+writingBytes >= tx.ResponseBodyLimit {
 		tx.variables.outboundDataError.Set("1")
-		if tx.WAF.ResponseBodyLimitAction == types.BodyLimitActionReject {
+		if tx.responseBodyLimitAction() == types.BodyLimitActionReject {
 			// We interrupt this transaction in case ResponseBodyLimitAction is Reject
 			return setAndReturnBodyLimitInterruption(tx, 500)
 		}
 
-		if tx.WAF.ResponseBodyLimitAction == types.BodyLimitActionProcessPartial {
+		if tx.responseBodyLimitAction() == types.BodyLimitActionProcessPartial {
 			writingBytes = tx.ResponseBodyLimit - tx.responseBodyBuffer.length
 			if writingBytes < 0 {
 				// the limit was lowered (ctl:responseBodyLimit) below what is already buffered
@@ -1283,11 +1305,11 @@ func (tx *Transaction) ReadResponseBodyFrom(r io.Reader) (*types.Interruption, i
 	}
 
 	if tx.ResponseBodyLimit == tx.responseBodyBuffer.length {
-		if tx.WAF.ResponseBodyLimitAction == types.BodyLimitActionReject {
+		if tx.responseBodyLimitAction() == types.BodyLimitActionReject {
 			return tx.interruption, 0, nil
 		}
 
-		if tx.WAF.ResponseBodyLimitAction == types.BodyLimitActionProcessPartial {
+		if tx.responseBodyLimitAction() == types.BodyLimitActionProcessPartial {
 			return nil, 0, nil
 		}
 	}
@@ -1300,11 +1322,11 @@ func (tx *Transaction) ReadResponseBodyFrom(r io.Reader) (*types.Interruption, i
 		writingBytes = int64(l.Len())
 		if tx.responseBodyBuffer.length+writingBytes >= tx.ResponseBodyLimit {
 			tx.variables.outboundDataError.Set("1")
-			if tx.WAF.ResponseBodyLimitAction == types.BodyLimitActionReject {
+			if tx.responseBodyLimitAction() == types.BodyLimitActionReject {
 				return setAndReturnBodyLimitInterruption(tx, 500)
 			}
 
-			if tx.WAF.ResponseBodyLimitAction == types.BodyLimitActionProcessPartial {
+			if tx.responseBodyLimitAction() == types.BodyLimitActionProcessPartial {
 				writingBytes = tx.ResponseBodyLimit - tx.responseBodyBuffer.length
 				runProcessResponseBody = true
 			}
@@ -1320,11 +1342,11 @@ func (tx *Transaction) ReadResponseBodyFrom(r io.Reader) (*types.Interruption, i
 
 	if tx.responseBodyBuffer.length == tx.ResponseBodyLimit {
 		tx.variables.outboundDataError.Set("1")
-		if tx.WAF.ResponseBodyLimitAction == types.BodyLimitActionReject {
+		if tx.responseBodyLimitAction() == types.BodyLimitActionReject {
 			return setAndReturnBodyLimitInterruption(tx, 500)
 		}
 
-		if tx.WAF.ResponseBodyLimitAction == types.BodyLimitActionProcessPartial {
+		if tx.responseBodyLimitAction() == types.BodyLimitActionProcessPartial {
 			runProcessResponseBody = true
 		}
 	}
